@@ -104,7 +104,11 @@ def public_call(T, fn, req, opt):
 def run(ctx):
     full = ctx.tier == "thorough"
     tag = "full" if full else "red"
-    T = TR.build_table(0)
+    try:
+        T = TR.build_table(0)
+    except TR.FailClosed as e:
+        return dict(evaluations=0, distinct_nontrivial=0, rule="", samples=[], findings=[],
+                    mismatches=[dict(oracle_fail=False, what=f"translator fails closed (unknown type-hint form / unmodelled registration): {e}")])
     mismatches, findings, samples = [], [], []
     extra = {}
     # 0. the table `make` compiled is the table of this tree
